@@ -53,7 +53,7 @@ def specs() -> dict[str, dict[str, Any]]:
             "msg": "FanCommandRequest",
             "opt": [Arg("state", False, True), Arg("speed", m.FanSpeed.LOW, m.FanSpeed.HIGH, (m.FanSpeed.MEDIUM,)),
                     Arg("speed_level", 0, 3, (100, 2**31 - 1)), Arg("oscillating", False, True),
-                    Arg("direction", m.FanDirection.FORWARD, m.FanDirection.REVERSE), Arg("preset_mode", "", "auto", ("é\U0001f600",))],
+                    Arg("direction", m.FanDirection.FORWARD, m.FanDirection.REVERSE), Arg("preset_mode", "", "auto", ("é\U0001f600", LONG))],
         },
         "light_command": {
             "msg": "LightCommandRequest",
@@ -62,7 +62,7 @@ def specs() -> dict[str, dict[str, Any]]:
                                                             components=("red", "green", "blue")),
                     Arg("white", 0.0, 0.7, fl), Arg("color_temperature", 0.0, 250.0, (153.0, 500.0)), Arg("cold_white", 0.0, 0.8, fl),
                     Arg("warm_white", 0.0, 0.9, fl), Arg("transition_length", 0.0, 1.5, (0.001, 0.0004, 0.0016, 2.5, 60.0, 4294967.0, 0.25), ms=True),
-                    Arg("flash_length", 0.0, 2.0, (0.001, 0.0004, 0.0016, 10.0, 0.75), ms=True), Arg("effect", "", "rainbow", ("None", "é"))],
+                    Arg("flash_length", 0.0, 2.0, (0.001, 0.0004, 0.0016, 10.0, 0.75), ms=True), Arg("effect", "", "rainbow", ("None", "é", LONG, HUGE))],
         },
         "climate_command": {
             "msg": "ClimateCommandRequest",
@@ -82,7 +82,7 @@ def specs() -> dict[str, dict[str, Any]]:
         "media_player_command": {
             "msg": "MediaPlayerCommandRequest",
             "opt": [Arg("command", m.MediaPlayerCommand.PLAY, m.MediaPlayerCommand.STOP, (m.MediaPlayerCommand.UNMUTE,)),
-                    Arg("volume", 0.0, 0.5, (1.0,)), Arg("media_url", "", "http://x/y.mp3", ("é",)), Arg("announcement", False, True)],
+                    Arg("volume", 0.0, 0.5, (1.0,)), Arg("media_url", "", "http://x/y.mp3", ("é", LONG, HUGE)), Arg("announcement", False, True)],
         },
         "lock_command": {
             "msg": "LockCommandRequest",
@@ -97,7 +97,7 @@ def specs() -> dict[str, dict[str, Any]]:
         "switch_command": {"msg": "SwitchCommandRequest", "req": [("state", [False, True])], "opt": []},
         "number_command": {"msg": "NumberCommandRequest", "req": [("state", [0.0, -0.0, 1.5, -273.15, 1e10, 0.1])], "opt": []},
         "select_command": {"msg": "SelectCommandRequest", "req": [("state", ["", "opt", "é\U0001f600"])], "opt": []},
-        "text_command": {"msg": "TextCommandRequest", "req": [("state", ["", "hello", "é\U0001f600"])], "opt": []},
+        "text_command": {"msg": "TextCommandRequest", "req": [("state", ["", "hello", "é\U0001f600", LONG, HUGE])], "opt": []},
         "button_command": {"msg": "ButtonCommandRequest", "req": [], "opt": []},
         "update_command": {"msg": "UpdateCommandRequest", "req": [("command", list(m.UpdateCommand))], "opt": []},
         "date_command": {"msg": "DateCommandRequest", "req": [("year", [0, 2024, 9999]), ("month", [0, 1, 12]), ("day", [0, 1, 31])], "opt": []},
@@ -134,20 +134,27 @@ def run_ms_sweep(version: tuple[int, int]) -> dict[str, Any]:
     return {"method": "light_command(ms sweep)", "version": version, "calls": calls, "nontrivial": calls, "viol": viol}
 
 
+LONG = "L" * 300
+HUGE = "h\u00e9" * 2500
+
+
 class Session:
-    def __init__(self, version: tuple[int, int]) -> None:
+    def __init__(self, version: tuple[int, int], noise: bool = False, name: str | None = None) -> None:
         self.version = version
-        w = ConnWorld(client=True, login=True)
+        self.noise = noise
+        w = ConnWorld(client=True, login=True, noise=noise)
         w.do_start()
         w.do_tcp_ok()
         w.do_finish_call()
-        w.io_chunk(w.sock, w.dframe(w.hello_resp(major=version[0], minor=version[1])) + w.dframe(w.connect_resp()))
+        w.do_handshake()
+        w.io_chunk(w.sock, w.dframe(w.hello_resp(major=version[0], minor=version[1], name=name)) + w.dframe(w.connect_resp()))
         w.drain()
         if w.outcome("finish") != "ok":
             raise HarnessError(f"connect failed: {w.results}")
         self.w = w
         self.sock = w.sock
         self.mark = len(self.sock.sent)
+        self.fmark = len(w.sent_frames())
         self.ids = env.proto_ids()
 
     def call(self, method: str, kwargs: dict[str, Any]) -> tuple[list[tuple[str, Any]], str | None, int]:
@@ -160,12 +167,20 @@ class Session:
         new = self.sock.sent[self.mark:]
         self.mark = len(self.sock.sent)
         out = []
-        for _, data in new:
-            for typ, payload in wire.decode_strict(data):
-                name = self.ids.get(typ, f"?{typ}")
-                msg = getattr(pb, name)()
-                msg.ParseFromString(payload)
-                out.append((name, msg))
+        try:
+            if self.noise:
+                fr = self.w.sent_frames()  # decrypted and length-checked by the reference responder
+                frames = fr[self.fmark:]
+                self.fmark = len(fr)
+            else:
+                frames = [f for _, data in new for f in wire.decode_strict(data)]
+        except Exception as e:  # noqa: BLE001
+            return [], f"written bytes do not decode: {type(e).__name__}: {e}", len(new)
+        for typ, payload in frames:
+            name = self.ids.get(typ, f"?{typ}")
+            msg = getattr(pb, name)()
+            msg.ParseFromString(payload)
+            out.append((name, msg))
         return out, err, len(new)
 
     def close(self) -> None:
@@ -266,11 +281,13 @@ def diff_fields(a: Any, b: Any) -> list[str]:
     return out
 
 
-def run_method(args: tuple[str, tuple[int, int], str]) -> dict[str, Any]:
-    method, version, mode = args
+def run_method(args: tuple[Any, ...]) -> dict[str, Any]:
+    method, version, mode = args[:3]
+    noise = len(args) > 3 and bool(args[3])
+    hello_name = args[4] if len(args) > 4 else None
     env.load()
     spec = specs()[method]
-    s = Session(version)
+    s = Session(version, noise=noise, name=hello_name)
     calls = 0
     nontrivial = 0
     viol: list[tuple[str, str, Any]] = []
@@ -289,7 +306,8 @@ def run_method(args: tuple[str, tuple[int, int], str]) -> dict[str, Any]:
                     calls += 1
                     if supplied:
                         nontrivial += 1
-                    desc = {"method": method, "version": list(version), "kwargs": {k: repr(v) for k, v in kwargs.items()}}
+                    desc = {"method": method, "version": list(version), "noise": noise, "hello_name": hello_name,
+                            "kwargs": {k: repr(v)[:80] for k, v in kwargs.items()}}
                     if err is not None:
                         k = f"{method}:raises"
                         if k not in seen_keys:
@@ -308,10 +326,11 @@ def run_method(args: tuple[str, tuple[int, int], str]) -> dict[str, Any]:
                         df = diff_fields(got, exp)
                         if not df:
                             continue
-                        k = key_of(method, version, supplied, df)
+                        k = key_of(method, version, supplied, df)  # the same key whatever the transport: a finding is a (method, fields) pair
                         if k not in seen_keys:
                             seen_keys.add(k)
-                            viol.append((k, f"{method}({', '.join(f'{a}={v!r}' for a, v in kwargs.items())}) at API {version[0]}.{version[1]}: "
+                            viol.append((k, f"{method}({', '.join(f'{a}={v!r}'[:60] for a, v in kwargs.items())}) at API {version[0]}.{version[1]}"
+                                         f"{' over Noise' if noise else ''}{' (device announced no name)' if hello_name == '' else ''}: "
                                          f"fields {df} differ: sent {{{', '.join(f'{f}={getattr(got, f)!r}' for f in df)}}}, "
                                          f"expected {{{', '.join(f'{f}={getattr(exp, f)!r}' for f in df)}}}", desc))
     finally:
@@ -322,7 +341,7 @@ def run_method(args: tuple[str, tuple[int, int], str]) -> dict[str, Any]:
 # ---------------------------------------------------------------------------------------------------
 # execute_service
 # ---------------------------------------------------------------------------------------------------
-def run_services(version: tuple[int, int]) -> dict[str, Any]:
+def run_services(version: tuple[int, int], hello_name: str | None = None) -> dict[str, Any]:
     env.load()
     from aioesphomeapi import model as m
 
@@ -332,7 +351,7 @@ def run_services(version: tuple[int, int]) -> dict[str, Any]:
         T.BOOL: [False, True],
         T.INT: [0, 1, -1, 2**31 - 1, -(2**31)],
         T.FLOAT: [0.0, 1.5, -0.25],
-        T.STRING: ["", "abc", "é\U0001f600"],
+        T.STRING: ["", "abc", "é\U0001f600", LONG],
         T.BOOL_ARRAY: [[], [True], [False, True, False]],
         T.INT_ARRAY: [[], [0], [1, -1, 2**31 - 1]],
         T.FLOAT_ARRAY: [[], [0.0], [1.5, -0.25]],
@@ -346,7 +365,7 @@ def run_services(version: tuple[int, int]) -> dict[str, Any]:
             return "int_" if version >= (1, 3) else "legacy_int"
         return wire_field[t]
 
-    s = Session(version)
+    s = Session(version, name=hello_name)
     calls = 0
     viol: list[tuple[str, str, Any]] = []
     seen: set[str] = set()
@@ -412,7 +431,7 @@ def run_camera(version: tuple[int, int]) -> dict[str, Any]:
 
 def _job(j: tuple[Any, ...]) -> dict[str, Any]:
     if j[0] == "svc":
-        return run_services(j[1])
+        return run_services(*j[1:])
     if j[0] == "cam":
         return run_camera(j[1])
     if j[0] == "ms":
@@ -468,8 +487,16 @@ def run(tier: str, seed: int) -> Result:
             if method == "light_command" and v not in (((1, 10),) if quick else ((1, 0), (1, 10))):
                 mode = "subsets"  # 3^12 twice is enough: light has no version-dependent encoding
             jobs.append(("m", method, v, mode))
+    # the encrypted transport (long arguments cross its 256-byte and 16-bit boundaries) and a device that announces no name
+    for method, spec in sp.items():
+        jobs.append(("m", method, (1, 10), "subsets", True))
+        if method in VERSION_SENSITIVE:
+            for v in VERSIONS:
+                jobs.append(("m", method, v, "subsets", False, ""))
+            jobs.append(("m", method, (1, 0), "subsets", True, ""))
     for v in VERSIONS:
         jobs.append(("svc", v))
+        jobs.append(("svc", v, ""))
     jobs.append(("cam", (1, 10)))
     jobs.append(("ms", (1, 10)))
     jobs.sort(key=lambda j: 0 if (j[0] == "m" and j[1] == "light_command" and j[3] == "full") else 1)
